@@ -128,14 +128,14 @@ def cases_for(cfg, lst, ops, rng, tier):
         first = name == PAIRING[cfg][0][0]
         for n in FULL_LEVELS:
             if n in adm:
-                gen_fpx.gen_level(G, n, tier, scale=(1.0 if first else 0.6) if not quick else (0.7 if first else 0.4))
-        # degrees 48 and 54 (thorough): on the first pairing prime of the build only
-        for n in HIGH_LEVELS + ([] if (quick or not first) else SWEEP_LEVELS):
+                gen_fpx.gen_level(G, n, tier, scale=(1.0 if (first and cfg == "std256") else 0.6) if not quick else (0.7 if first else 0.4))
+        # degrees 48 and 54 (thorough): on the first pairing prime of the 256-bit build only
+        for n in HIGH_LEVELS + ([] if (quick or not first or cfg != "std256") else SWEEP_LEVELS):
             if n in adm:
                 gen_fpx.gen_level(G, n, tier, scale=0.3 if n <= 24 else 0.15, heavy=(not quick and n <= 24))
         lines += G.L
         tail += G.tail
-        towers += gen_fpx.tower_lines(sel, [n for n in adm if n <= (24 if (quick or not first) else 54)])
+        towers += gen_fpx.tower_lines(sel, [n for n in adm if n <= (24 if (quick or not first or cfg != "std256") else 54)])
         # the other sparse pattern of the dodecic multiplication (M-type twist)
         if 12 in adm:
             G2 = gen_fpx.Gen("E%sm" % name, p, wbits, rng, ops, tw=2)
